@@ -21,7 +21,7 @@ ID = "C11"
 ALLOWED_AXIOMS = []
 TRUSTED_BASE = [
     "coqc 8.16.1 kernel (vm_compute used for parameter facts and refutation witnesses; no native_compute)",
-    "no axioms: every theorem of coq/C11/Properties.v is 'Closed under the global context'",
+    "no axioms: every theorem of coq/C11/Properties.v is 'Closed under the global context'; models mirror lib/allocators after the repairs 484ce8f, 961d315, 942c78c, b8d094a",
     "translator checks/C11.py:gen (regex scrape of ALLOC_ALIGN/MIN_ALLOC_SIZE/BIN_COUNT/BIN_MAX_LOOKUPS/NODE_COOKIE/HeapNode fields/get_bin_index constants in heap.nelua, StackAllocHeader + static asserts in stack.nelua, default ALIGN in arena.nelua; typedefs.maxalign and pointer size probed through the real compiler)",
     "extraction: Require Extraction + ExtrOcamlBasic only; Z/positive/nat stay Coq inductives; no Extract Constant of our own",
     "ocaml/zutil.ml + coq/C11/driver.ml (line protocol, handle table, printing of the model state), harness/C11/driver.nelua (calls the allocators, keeps the handle table, prints offsets and internal state read through the allocator records), OCaml 4.13.1, gcc, the Nelua compiler itself (the driver is compiled by it, default checked build)",
@@ -29,7 +29,7 @@ TRUSTED_BASE = [
     "GeneralAllocator (libc malloc) and GCAllocator (property C10) are outside the Coq model; AlignedAllocator is modelled only as the wrapper arithmetic",
 ]
 ASSUMPTIONS = [
-    "the buffer is a real object: base > 0 and base + SIZE + ALIGN + header < 2^64 (no address wrap)",
+    "the buffer is a real object: base > 0 and base + SIZE + ALIGN + header (+ MIN_ALLOC_SIZE for the heap) <= 2^64 (no address wrap)",
     "clients write only inside blocks they own (frame condition of the stack/pool/heap theorems)",
     "correspondence is differential testing over generated histories, not a proof that model = code",
     "checked (default) build: check()/bounds checks abort; release builds are not exercised",
@@ -209,8 +209,6 @@ class Shadow:
         self.P = P
         self.live = {}          # handle -> dict(off,size,seed,plen)
         self.problems = []      # (what, detail)
-        self.strict = False     # witnesses: report adjacent free chunks even for the known defect class
-        self.tainted = False    # heap: a shrinking realloc next to a free chunk happened (known defect class)
         self.state = None
         self.base = info["base"]
         if self.kind in ("arena", "stack"):
@@ -258,8 +256,6 @@ class Shadow:
         zflag = [x for x in rw if x in ("z0", "z1")]
         if op == "reset" or op == "deallocall":
             self.live.clear()
-            if op == "reset":
-                self.tainted = False
         elif op in ("alloc", "alloc0", "spanalloc", "spanalloc0"):
             h, n = int(toks[1]), int(toks[2])
             if op.startswith("span"):
@@ -409,15 +405,8 @@ class Shadow:
         if seen != set(free):
             self.bad("heap-free-not-binned", "free chunks %s are in no bin" % sorted(set(free) - seen))
         # no two adjacent free chunks
-        for i, (a, b) in enumerate(zip(body, body[1:])):
+        for a, b in zip(body, body[1:]):
             if not a["used"] and not b["used"]:
-                if self.tainted:
-                    break
-                # known defect class: in-place shrinking realloc whose split remainder precedes a free chunk
-                if not self.strict and op in ("realloc", "realloc0", "spanrealloc", "spanrealloc0") and i >= 1 and body[i - 1]["used"] and \
-                        self.live.get(int(toks[1]), {}).get("off") == body[i - 1]["off"] + N:
-                    self.tainted = True
-                    break
                 self.bad("heap-adjacent-free", "chunks %d and %d are both free" % (a["off"], b["off"]))
                 break
 
@@ -456,6 +445,10 @@ class Runner:
 
 
 def pick_size(kind, sh, rng, P, for_realloc=None):
+    return min(max(_pick_size(kind, sh, rng, P, for_realloc), 0), M64 - 1)
+
+
+def _pick_size(kind, sh, rng, P, for_realloc=None):
     """Sizes: 0, 1, align+-1, chunk/bin boundaries, capacity+-1, 2^63, just below the wrap-around zone."""
     r = rng.random()
     if kind in ("arena", "stack"):
@@ -470,22 +463,27 @@ def pick_size(kind, sh, rng, P, for_realloc=None):
             return max(1, rem - hdr - rng.choice([0, 1, -1, A, A - 1, A + 1, 2 * A, hdr, rem // 2, rem // 3]))
         if r < .88:
             return max(1, S + rng.choice([0, 1, -1, -A, -hdr, -hdr - A, -hdr - 1]))
-        if r < .92 and kind != "arena":
+        if r < .92:
             return 0
         nowrap = M64 - S - A - hdr - 1
-        return rng.choice([1 << 63, (1 << 63) + 1, (1 << 63) - 1, 1 << 32, (1 << 32) - 1, nowrap, nowrap - 1, nowrap - rng.randrange(64)])
+        cur = getattr(sh, "curr", 0)
+        return rng.choice([1 << 63, (1 << 63) + 1, (1 << 63) - 1, 1 << 32, (1 << 32) - 1, nowrap, nowrap - 1, nowrap - rng.randrange(64),
+                           M64 - 1, M64 - 8, M64 - A, M64 - cur, M64 - cur - 1, M64 - cur + 8, M64 - cur - hdr, M64 - cur - hdr - A,
+                           M64 - rng.randrange(1, S + 2 * A + 16), M64 - S, M64 - S + 1])
     if kind == "pool":
         C = sh.info["chunk"]
         return rng.choice([1, 1, C, C, C - 1, C, rng.randint(1, C), rng.randint(1, C), C + 1, 0, 1 << 63, M64 - 1, 2 * C])
     # heap
     N, AL, MIN = P["HEAP_NODE_SIZE"], P["ALLOC_ALIGN"], P["MIN_ALLOC_SIZE"]
     hp = getattr(sh, "heap", None)
+    if hp and (hp["corrupt"] or len(hp["chunks"]) < 2):
+        hp = None
     free = [c["size"] for c in hp["chunks"][:-1] if not c["used"]] if hp else []
     if for_realloc is not None and hp and r < .45:
         # aim at the grow-in-place / split thresholds of realloc
         b = for_realloc
         cs = [c for c in hp["chunks"] if c["off"] + N == b["off"]]
-        if cs:
+        if cs and hp["chunks"].index(cs[0]) + 1 < len(hp["chunks"]):
             i = hp["chunks"].index(cs[0])
             csz = cs[0]["size"]
             nx = hp["chunks"][i + 1]
@@ -505,7 +503,8 @@ def pick_size(kind, sh, rng, P, for_realloc=None):
     if r < .84:
         return 0
     if r < .90:
-        return rng.choice([1 << 63, (1 << 63) + 1, M64 - AL, M64 - N - AL + 1, M64 - N - AL, M64 - N - AL - 1, M64 - 2 * N, 1 << 32, (1 << 27) - 16, 1 << 27])
+        return rng.choice([1 << 63, (1 << 63) + 1, M64 - AL, M64 - N - AL + 1, M64 - N - AL, M64 - N - AL - 1, M64 - N - AL - 2, M64 - 2 * N, 1 << 32,
+                           (1 << 27) - 16, 1 << 27, M64 - 1, M64 - 8, M64 - 15, M64 - 16, M64 - 17, M64 - N, M64 - N - 1, M64 - rng.randrange(1, 100)])
     return rng.randint(1, max(2, sh.cap // 4))
 
 
@@ -527,6 +526,8 @@ def run_history(R, rng, nops, style):
     kind = sh.kind
     P = R.P
     R.do("reset")
+    if rng.random() < (.25 if kind == "pool" else .05):
+        R.do("deallocall")          # before any alloc (pool: before lazy initialisation)
     free_h = list(range(64))
     order = []          # handles in allocation order (those currently non-nil)
     seedc = [rng.randrange(1, 250)]
@@ -559,6 +560,8 @@ def run_history(R, rng, nops, style):
         return rng.choice(order)
 
     for _ in range(nops):
+        if R.problems:
+            return          # the oracle has a failing input: stop here, the allocator state may be corrupt
         r = rng.random()
         w_alloc = {"mixed": .45, "lifo": .5, "fifo": .5, "realloc": .3, "churn": .4}[style]
         w_real = {"mixed": .2, "lifo": .1, "fifo": .1, "realloc": .45, "churn": .15}[style]
@@ -567,8 +570,6 @@ def run_history(R, rng, nops, style):
             if h is None:
                 continue
             n = pick_size(kind, sh, rng, P)
-            if kind == "arena" and n == 0:
-                n = 1
             opn = rng.choice(["alloc", "alloc", "alloc", "alloc0", "alloc0", "spanalloc", "spanalloc0", "realloc", "realloc0"]) if kind != "pool" else rng.choice(["alloc", "alloc", "alloc0", "realloc"])
             if opn.startswith("span"):
                 n = max(1, min(n, (1 << 61)) // 4) if n < (1 << 40) else n // 4
@@ -586,9 +587,7 @@ def run_history(R, rng, nops, style):
             if rng.random() < .3:
                 n = max(1, b["size"] + rng.choice([-1, 1, -b["size"] // 2, b["size"], 0, 7, -7, 16, -16]))
             if n == 0 and kind == "stack" and h != order[-1]:
-                n = 1          # realloc(p,0) is a dealloc: must stay LIFO on the stack
-            if kind == "arena" and b["size"] == 0:
-                continue       # zero-size arena blocks are never touched again (domain of arena_safe_partial)
+                n = 1          # realloc(p,0) is a dealloc: must stay LIFO on the stack (precondition)
             sp = b["size"] % 4 == 0 and rng.random() < .25 and kind != "pool"
             opn = rng.choice(["realloc", "realloc0"])
             if sp:
@@ -607,10 +606,8 @@ def run_history(R, rng, nops, style):
                 if h in order:
                     order.remove(h)
                 free_h.append(h)
-        elif r < .97 or (kind == "pool" and not getattr(sh, "init", False)):
+        elif r < .97:
             h = pick_victim()
-            if kind == "arena" and sh.live[h]["size"] == 0:
-                continue
             release(h)
         else:
             for h in list(order):
@@ -620,6 +617,8 @@ def run_history(R, rng, nops, style):
             R.do("deallocall")
             free_h[:] = list(range(64))
             order[:] = []
+    if R.problems:
+        return
     # finale: verify everything, release everything, the largest initial request must fit again
     for h in list(order):
         b = sh.live.get(h)
@@ -638,16 +637,15 @@ def run_history(R, rng, nops, style):
     order[:] = []
     mx = max_initial_request(sh, P)
     if kind == "pool":
-        if getattr(sh, "init", False) or not getattr(sh, "free", []):
-            for i in range(sh.info["count"]):
-                R.do("alloc %d %d" % (100 + i, mx), expect="nonnil")
-            R.do("alloc 99 %d" % mx)
-            if 99 in sh.live:
-                R.problems.append(("pool-overcommit", "pool of %d chunks satisfied %d allocations" % (sh.info["count"], sh.info["count"] + 1), len(R.alllines) - 1))
+        for i in range(sh.info["count"]):
+            R.do("alloc %d %d" % (100 + i, mx), expect="nonnil")
+        R.do("alloc 99 %d" % mx)
+        if 99 in sh.live:
+            R.problems.append(("pool-overcommit", "pool of %d chunks satisfied %d allocations" % (sh.info["count"], sh.info["count"] + 1), len(R.alllines) - 1))
     elif kind == "heap" and mx <= 0:
         pass
     elif kind == "heap":
-        R.do("alloc 100 %d" % mx, expect=None if sh.tainted else "nonnil")
+        R.do("alloc 100 %d" % mx, expect="nonnil")
         R.do("alloc 101 1")
         if 100 in sh.live and 101 in sh.live:
             R.problems.append(("heap-overcommit", "a full-size block and another block are both live", len(R.alllines) - 1))
@@ -659,11 +657,12 @@ def run_history(R, rng, nops, style):
 
 
 # --------------------------------------------------------------------------------------------
-# known-defect witnesses (DESIGN.md section 5) and scripted precondition-violating histories
+# histories of the seven repaired defects (replayed every run, must pass) and scripted precondition-violating histories
 # --------------------------------------------------------------------------------------------
 BIG = M64 - 8
-WITNESSES = [
-    # key, instance, ops, what
+# each was a known finding until the fix commits 484ce8f / 961d315 / 942c78c / b8d094a; the text says what used to fail
+REGRESSIONS = [
+    # key, instance, ops, what used to fail
     ("arena(64,8): alloc 16; alloc 18446744073709551608; alloc 8", "a0",
      ["alloc 0 16", "alloc 1 %d" % BIG, "alloc 2 8"],
      "arena offset+size wraps mod 2^64: alloc(2^64-8) succeeds and the next block overlaps the first"),
@@ -714,7 +713,6 @@ def run_scripted(exe, inst, ops, P):
     msg = ""
     try:
         R.do("reset")
-        R.sh.strict = True
         for o in ops:
             if o.endswith(" !"):
                 R.do(o[:-2], expect="nonnil")
@@ -761,15 +759,16 @@ def correspond(ctx):
                           failing_input=False)
             return {"evaluations": 0}
     stats = {"histories": 0, "ops": 0, "by_kind": {}, "by_style": {}, "by_op": {}, "oracle_failures": 0, "model_mismatches": 0,
-             "tainted_heap_histories": 0, "panics_expected": 0}
+             "panics_expected": 0}
     samples = []
     distinct = set()
 
     def replay_cmd(lines):
         return "printf '%%s\\n' %s | %s" % (" ".join("'%s'" % l for l in lines[:80]), exe)
 
-    # ---- 1. witnesses of the known defects: replayed on the implementation, judged by the oracle
-    for key, inst, ops, what in WITNESSES:
+    # ---- 1. the histories of the repaired defects: replayed on the implementation, judged by the oracle;
+    #         they must pass now, a failure is a plain VIOLATION (the entries in known_findings are "fixed:")
+    for key, inst, ops, what in REGRESSIONS:
         R, infol, died, msg = run_scripted(exe, inst, ops, P)
         lines = [l for l, _ in R.lines]
         rc, mout, merr = run_model(driver, infol, lines if died is None else R.alllines)
@@ -785,13 +784,13 @@ def correspond(ctx):
                 mm = (R.alllines[k], "aborted: " + msg, mout[k] if len(mout) > k else "<none>")
         if R.problems or died is not None:
             why = "; ".join("%s: %s" % (w, d) for w, d, _ in R.problems[:3]) or ("process aborted at '%s': %s" % (R.alllines[died], msg))
-            ctx.violation(key, "oracle", "%s -- %s" % (what, why),
+            ctx.violation("regression:" + key, "oracle", "repaired defect is back: %s -- %s" % (what, why),
                           detail={"instance": inst, "info": R.impl.info[inst], "ops": ops, "transcript": [list(x) for x in R.lines],
                                   "replay": replay_cmd(R.alllines)})
         if mm:
             stats["model_mismatches"] += 1
-            ctx.violation("model-mismatch:witness:" + key, "correspondence",
-                          "model and implementation disagree on the witness history: at '%s' implementation '%s', model '%s'" % mm,
+            ctx.violation("model-mismatch:regression:" + key, "correspondence",
+                          "model and implementation disagree on the history of a repaired defect: at '%s' implementation '%s', model '%s'" % mm,
                           detail={"ops": ops}, failing_input=False)
         stats["ops"] += len(R.alllines)
 
@@ -838,6 +837,9 @@ def correspond(ctx):
         except Dead as d:
             R.problems.append(("aborted", "the allocator process aborted in a valid history: %s" % d, len(R.alllines) - 1))
             impl = Impl(exe)
+        except (IndexError, KeyError, ValueError):
+            if not R.problems:      # only tolerate generator hiccups on an allocator the oracle already flagged
+                raise
         hi = len(hist_meta)
         hist_meta.append((name, style, tag, R))
         transcript.append((hi, [x for x in R.impl.infolines if x.split()[1] == name][0], None))
@@ -851,8 +853,6 @@ def correspond(ctx):
         for l in R.alllines:
             o = l.split()[1]
             stats["by_op"][o] = stats["by_op"].get(o, 0) + 1
-        if R.sh.tainted:
-            stats["tainted_heap_histories"] += 1
         nsucc = sum(1 for l, r in R.lines if l.split()[1] in ("alloc", "alloc0", "spanalloc", "spanalloc0") and r.split()[0].isdigit())
         nrel = sum(1 for l, r in R.lines if l.split()[1] in ("dealloc", "realloc", "realloc0", "spanrealloc", "spanrealloc0", "spandealloc"))
         if nsucc >= 3 and nrel >= 1:
@@ -925,21 +925,20 @@ def correspond(ctx):
     return {
         "evaluations": stats["ops"],
         "distinct_nontrivial": len(distinct),
-        "rule": "histories = known-defect witnesses + scripted precondition-violating histories (one process each) + corpus + random interactive histories "
-                "(styles mixed/lifo/fifo/realloc-heavy/churn) over 7 arena, 5 stack, 5 pool and 6 heap instances; sizes drawn from 0,1,align+-1, remaining "
-                "capacity+-1, capacity+-1, free-chunk size +- header/MIN_ALLOC/align (split and grow thresholds), bin boundaries 2^k+-1, 2^63, and just below the "
-                "wrap-around zone; every history ends by releasing everything and re-requesting the largest initial request. evaluations = operations executed on "
-                "the real allocators; non-trivial = distinct histories with >= 3 successful allocations and >= 1 dealloc/realloc. Random histories stay inside the "
-                "domain of the *_partial theorems (arena: no alloc(0) that is later freed, no sizes in the last SIZE+ALIGN bytes below 2^64; pool: no deallocall "
-                "before the first alloc); heap histories that perform a shrinking realloc in front of a free chunk are marked tainted and skip only the "
-                "no-adjacent-free / release-all checks (that defect is a recorded known finding)",
+        "rule": "histories = the 7 histories of the repaired defects (must pass) + scripted precondition-violating histories (one process each) + corpus + random "
+                "interactive histories (styles mixed/lifo/fifo/realloc-heavy/churn) over 7 arena, 5 stack, 5 pool and 6 heap instances; sizes drawn from 0,1,align+-1, "
+                "remaining capacity+-1, capacity+-1, free-chunk size +- header/MIN_ALLOC/align (split and grow thresholds), bin boundaries 2^k+-1, 2^63, and the whole "
+                "wrap-around zone up to 2^64-1 (2^64-curr+-k, 2^64-SIZE.., 2^64-47..2^64-1); alloc(0) everywhere; pool deallocall before the first alloc; shrinking "
+                "reallocs in front of free chunks; every history ends by releasing everything and re-requesting the largest initial request. evaluations = operations "
+                "executed on the real allocators; non-trivial = distinct histories with >= 3 successful allocations and >= 1 dealloc/realloc. The only precondition kept "
+                "in the valid stream is the documented one of the stack (dealloc/realloc-to-0 in LIFO order)",
         "samples": samples,
         "distribution": {"histories_by_kind": stats["by_kind"], "by_style": stats["by_style"], "ops": stats["by_op"],
-                         "witnesses": len(WITNESSES), "violating_histories": len(viol), "tainted_heap_histories": stats["tainted_heap_histories"]},
+                         "repaired_defect_histories": len(REGRESSIONS), "violating_histories": len(viol)},
         "histories": stats["histories"],
         "oracle_failures": stats["oracle_failures"],
         "model_mismatches": stats["model_mismatches"],
-        "traces_validated_against_impl": stats["histories"] + len(WITNESSES) + len(viol),
+        "traces_validated_against_impl": stats["histories"] + len(REGRESSIONS) + len(viol),
         "unproved": UNPROVED,
     }
 
@@ -947,7 +946,7 @@ def correspond(ctx):
 UNPROVED = [
     "refinement between the memory-level heap model (Heap.v: header words, prev_adj/next/prev links, NODE_COOKIE test) and the abstract chunk-list model (HeapA.v) in which the heap theorems are stated is not proved; both are compared with the real allocator line by line on every check",
     "heap: realloc preserves the first min(old,new) bytes / alloc0,realloc0 zero the new bytes are not theorems (the heap models carry no payload bytes); they are checked on the real allocator by the shadow map only. Proved for the arena; trivial for stack and pool (realloc never moves)",
-    "stack/pool/heap: 'a valid history never trips a run-time check' is proved for arena (inside C11_arena_safe_partial), heap (C11_heap_safe_partial) only; for stack/pool the theorems cover the runs that do not abort",
+    "'a valid history never trips a run-time check' is proved for arena (inside C11_arena_safe) and heap (C11_heap_safe) only; for stack/pool the theorems cover the runs that do not abort",
     "GeneralAllocator (libc malloc) and GCAllocator (property C10) are outside the Coq model; AlignedAllocator and the span*/x*/new/delete wrappers of Allocator_implement_interface are exercised by the correspondence stream (span*) but by no theorem",
     "release builds (checks compiled out) are not exercised",
 ]
